@@ -36,9 +36,45 @@ def inprocess(case):
 
 
 def model_cfg(case):
+    b = case.get("base", 0)
     return {"n": case["n"], "m": case["m"],
-            "items": [{"id": i, "outs": [NONE_CODE if o is None else o for o in it["outs"]],
-                       "err": (i if it.get("err") else None)} for i, it in enumerate(case["items"])]}
+            "items": [{"id": b + i, "outs": [NONE_CODE if o is None else o for o in it["outs"]],
+                       "err": (b + i if it.get("err") else None)} for i, it in enumerate(case["items"])]}
+
+
+def calls_of(case):
+    """the consecutive filter() calls of a case, each a case of its own (shared n, m, wrap; item ids are
+    numbered through so that one filter object serves the whole history)"""
+    hist = case.get("history")
+    if not hist:
+        return [case]
+    out, base = [], 0
+    for k, h in enumerate(hist):
+        c = {"mode": case.get("mode", "sched"), "n": case["n"], "m": case["m"], "items": h["items"], "abandon": h.get("abandon"),
+             "base": base, "call": k}
+        if case.get("wrap"):
+            c["wrap"] = True
+        if h.get("iter"):
+            c["iter"] = True
+        sc = case.get("sched")
+        if sc:
+            c["sched"] = dict(sc, seed=sc.get("seed", 0) + 7919 * k)
+        out.append(c)
+        base += len(h["items"])
+    return out
+
+
+def full_table(case):
+    from props import c08_filters as FL
+    t = {}
+    for c in calls_of(case):
+        t.update(FL.table_of(c["items"], bool(case.get("wrap")), c.get("base", 0)))
+    return t
+
+
+def short(x, n=500):
+    s_ = json.dumps(x)
+    return s_ if len(s_) <= n else s_[:n] + "…(%d items)" % len(x)
 
 
 def enc(o):
@@ -58,8 +94,8 @@ def err_id(exc):
 
 
 def make_items(case):
-    n = len(case["items"])
-    return iter(range(n)) if case.get("iter") else list(range(n))
+    n, b = len(case["items"]), case.get("base", 0)
+    return iter(range(b, b + n)) if case.get("iter") else list(range(b, b + n))
 
 
 # ------------------------------------------------------------------ running the real code
@@ -96,8 +132,9 @@ def build(case, flt):
     return Multiprocessor(flt, case["n"], case["m"])
 
 
-def run_scheduled(case, prefix=None):
-    """the real Multiprocessor.filter under the controlled scheduler; -> dict(outs, outcome, trace, calls, …)"""
+def run_scheduled(case, prefix=None, mp=None):
+    """ONE call of the real Multiprocessor.filter under the controlled scheduler; -> dict(outs, outcome, trace, calls, …).
+    `mp` = an already used Multiprocessor object (histories of calls on the same object)."""
     from props import c08_sched as S, c08_filters as FL
     import coba.pipes.multiprocessing as cpm
     import coba.pipes.lines as lines
@@ -105,7 +142,7 @@ def run_scheduled(case, prefix=None):
     sc = case.get("sched") or {}
     rng = Rng(sc.get("seed", 0), "c08-sched") if not sc.get("det") else None
     chooser = S.PolicyChooser(rng, sc.get("policy"), prefix if prefix is not None else sc.get("prefix"))
-    sched = S.Sched(chooser, step_limit=6000, wall=25.0)
+    sched = S.Sched(chooser, step_limit=6000 + 400 * len(case["items"]), wall=25.0)
     sched.none_code = NONE_CODE if has_none(case) else None
     sched.register_main()
     FP, FT = S.make_fakes(sched, lines.ProcessLine, lines.ThreadLine)
@@ -114,8 +151,8 @@ def run_scheduled(case, prefix=None):
     del FL.CALLS[:]
     try:
         cpm.spawn_context, cpm.MyProcessLine, cpm.ThreadLine = S.FakeContext(sched), FP, FT
-        flt = FL.SpecFilter(FL.table_of(case["items"], bool(case.get("wrap"))))
-        mp = build(case, flt)
+        if mp is None:
+            mp = build(case, FL.SpecFilter(full_table(case)))
         if not case.get("wrap"):
             sched.np_probe = lambda: mp._n_procs
         gen = mp.filter(make_items(case))
@@ -138,6 +175,19 @@ def run_scheduled(case, prefix=None):
             "choices": list(sched.choices), "escaped": list(sched.escaped), "steps": sched.steps}
 
 
+def run_history_scheduled(case):
+    """2-3 consecutive filter() calls on the SAME Multiprocessor object; one scheduler per call (whatever an earlier call
+    left running in the background is cut off when that call is over).  -> list of runs, one per call"""
+    from props import c08_filters as FL
+    mp = build(case, FL.SpecFilter(full_table(case)))
+    runs = []
+    for c in calls_of(case):
+        runs.append(run_scheduled(c, mp=mp))
+        if runs[-1]["outcome"]["kind"] == "hang":
+            break
+    return runs
+
+
 def run_real(case, timeout=60.0):
     """real spawned processes, no substitution; only the outcome is observed.  Runs in a fresh interpreter so that
     the daemon threads / worker processes the real code leaves behind (e.g. after an abandon) cannot touch later cases."""
@@ -149,12 +199,14 @@ def run_real(case, timeout=60.0):
             "from props.c08 import _run_real_here\n"
             "if __name__ == '__main__':\n"
             "    print('C08RESULT' + json.dumps(_run_real_here(json.loads(sys.stdin.read()), %r)))\n" % (repo, here, timeout))
+    ncalls = len(calls_of(case))
     try:
         p = subprocess.run([sys.executable, "-W", "ignore", "-c", code], input=json.dumps(case), capture_output=True, text=True,
-                           timeout=timeout + 15, env=env)
+                           timeout=timeout * ncalls + 15, env=env)
     except subprocess.TimeoutExpired:
-        return {"outs": [], "outcome": {"kind": "hang", "reason": "no result after %ss with real processes" % timeout},
-                "trace": None, "calls": {}, "choices": [], "escaped": [], "steps": 0}
+        r = {"outs": [], "outcome": {"kind": "hang", "reason": "no result after %ss with real processes" % timeout},
+             "trace": None, "calls": {}, "choices": [], "escaped": [], "steps": 0}
+        return {"runs": [r]} if case.get("history") else r
     for ln in p.stdout.splitlines():
         if ln.startswith("C08RESULT"):
             return json.loads(ln[9:])
@@ -162,34 +214,43 @@ def run_real(case, timeout=60.0):
 
 
 def _run_real_here(case, timeout=60.0):
+    """runs in the fresh interpreter: all calls of the case on one object; -> run (single call) or {"runs": [...]} (history)"""
     from props import c08_filters as FL
-    logdir = tempfile.mkdtemp(prefix="c08-")
-    res = {}
+    top = tempfile.mkdtemp(prefix="c08-")
+    runs = []
     try:
-        flt = FL.SpecFilter(FL.table_of(case["items"], bool(case.get("wrap"))), logdir)
+        flt = FL.SpecFilter(full_table(case), top)
         mp = build(case, flt)
+        for k, c in enumerate(calls_of(case)):
+            logdir = os.path.join(top, "call%d" % k)
+            os.mkdir(logdir)
+            flt.logdir = logdir                 # the line is pickled at every process start, so this reaches new workers
+            res = {}
 
-        def body():
-            try:
-                res["r"] = consume(mp.filter(make_items(case)), case)
-            except BaseException as e:       # noqa
-                res["r"] = ([], {"kind": "raised", "type": type(e).__name__, "msg": str(e)[:200], "item": None})
+            def body(c=c, res=res):
+                try:
+                    res["r"] = consume(mp.filter(make_items(c)), c)
+                except BaseException as e:       # noqa
+                    res["r"] = ([], {"kind": "raised", "type": type(e).__name__, "msg": str(e)[:200], "item": None})
 
-        th = threading.Thread(target=body, daemon=True)
-        th.start()
-        th.join(timeout)
-        if th.is_alive():
-            outs, outcome = [], {"kind": "hang", "reason": "no result after %ss with real processes" % timeout}
-        else:
-            outs, outcome = res["r"]
-        calls = {}
-        for name in os.listdir(logdir):
-            if name.endswith(".calls"):
-                with open(os.path.join(logdir, name)) as f:
-                    calls[name[:-6]] = len([ln for ln in f.read().split("\n") if ln.strip()])
-        return {"outs": outs, "outcome": outcome, "trace": None, "calls": calls, "choices": [], "escaped": [], "steps": 0}
+            th = threading.Thread(target=body, daemon=True)
+            th.start()
+            th.join(timeout)
+            if th.is_alive():
+                outs, outcome = [], {"kind": "hang", "reason": "no result after %ss with real processes" % timeout}
+            else:
+                outs, outcome = res["r"]
+            calls = {}
+            for name in os.listdir(logdir):
+                if name.endswith(".calls"):
+                    with open(os.path.join(logdir, name)) as f:
+                        calls[name[:-6]] = len([ln for ln in f.read().split("\n") if ln.strip()])
+            runs.append({"outs": outs, "outcome": outcome, "trace": None, "calls": calls, "choices": [], "escaped": [], "steps": 0})
+            if outcome["kind"] == "hang":
+                break
+        return {"runs": runs} if case.get("history") else runs[0]
     finally:
-        shutil.rmtree(logdir, ignore_errors=True)
+        shutil.rmtree(top, ignore_errors=True)
 
 
 # ------------------------------------------------------------------ (B) the property, directly
@@ -200,7 +261,10 @@ def judge(case, run):
     exp = collections.Counter(map(enc, expected_outs(case)))
     got = collections.Counter(map(enc, outs))
     rs = raising(case)
-    desc = "n=%d m=%d items=%s abandon=%s" % (case["n"], case["m"], json.dumps(case["items"]), case.get("abandon"))
+    base = case.get("base", 0)
+    desc = "n=%d m=%d items=%s abandon=%s" % (case["n"], case["m"], short(case["items"]), case.get("abandon"))
+    if case.get("call"):
+        desc = "call #%d on the same Multiprocessor object, " % (case["call"] + 1) + desc
     kind = oc["kind"]
     # never hangs
     if kind == "hang":
@@ -235,11 +299,11 @@ def judge(case, run):
         if kind == "ok":
             fails.append(F("B", "the filter raises for item(s) %s but the call returned normally with %r (%s)" % (rs, outs, desc),
                            "error-not-raised:" + "+".join(types)))
-        elif (case.get("wrap") and oc.get("type") == "CobaExit" and oc.get("item") in rs
-              and case["items"][oc["item"]]["err"] == "RuntimeError"):
+        elif (case.get("wrap") and oc.get("type") == "CobaExit" and oc.get("item") is not None and oc["item"] - base in rs
+              and case["items"][oc["item"] - base]["err"] == "RuntimeError"):
             fails.append(F("B", "CobaMultiprocessor turned the filter's RuntimeError(%s) into CobaExit (a BaseException): the caller does not get "
                            "that error (%s)" % (oc["msg"], desc), "wrapper-runtimeerror-becomes-cobaexit"))
-        elif oc.get("item") not in rs or oc.get("type") != case["items"][oc["item"]]["err"]:
+        elif oc.get("item") is None or oc["item"] - base not in rs or oc.get("type") != case["items"][oc["item"] - base]["err"]:
             fails.append(F("B", "the call raised %s(%s), which is not one of the filter's errors (%s)" % (oc["type"], oc["msg"], desc), "wrong-error"))
     # maxtasksperchild
     if case["m"] > 0:
